@@ -158,7 +158,7 @@ def scope(res, pid, rng, tier):
         for s in strs:
             r = sess.op("ipline %s pinned 0 %s" % (oid, cps(s)), lambda s=s, an=an: "ok " + cps(anonymize_ip_addr(an, s, False)),
                         {"family": fam, "line": s})
-            rows.append((fam, s, r))
+            rows.append((fam, s, r, len(sess.lines) - 1))
     # the arithmetic reading of the IPv4 core language proved in Lean (`lang_core4_iff` / `isQuadB_iff`: four decimal parts
     # <= 255, leading zeros allowed) against CPython's own reading of the core of the pattern, on every token-like piece
     import re
@@ -184,14 +184,14 @@ def scope(res, pid, rng, tier):
     def collect(f, a):
         need[f].add(a)
         return 0
-    for fam, s, r in rows:
+    for fam, s, r, _ix in rows:
         expected(fam, s, collect, nn)
     imgs = {}
     for f, cfg in ((4, c4), (6, c6)):
         ks = sorted(need[f])
         vs = spec_images(cfg, ks) if ks else []
         imgs[f] = dict(zip(ks, vs))
-    for fam, s, r in rows:
+    for fam, s, r, ix_ in rows:
         exp, sigs = expected(fam, s, lambda f, a: imgs[f][a], nn)
         got = uncps(r[3:]) if r.startswith("ok ") else None
         res.nt(("line", fam, s[:12]))
@@ -201,7 +201,9 @@ def scope(res, pid, rng, tier):
         elif got != exp:
             case = {"kind": "text substitution differs from the token-level reading of the property", "family": fam,
                     "line": s, "output": got, "expected": exp, "preserve_addresses": nets}
-            if "v6-dotted-tail" in sigs:
+            # the recorded finding is the behaviour of the unchanged code, which the model reproduces: only a deviation on which
+            # implementation and model agree is that finding - anything else on such a token is a new violation
+            if "v6-dotted-tail" in sigs and sess.model[ix_] == r:
                 case["signature"] = "v6-dotted-tail"
             fails.append(case)
         elif got != s:
@@ -297,6 +299,16 @@ def io_scope(res, pid, rng, tier):
         mids.append((e6, sig))
         expected(4, e6, collect, [])
     imgs4 = dict(zip(sorted(need[4]), spec_images(c4, sorted(need[4])) if need[4] else []))
+    # what the unchanged code does on tokens with a dotted tail (the recorded finding) is what the model does
+    from . import fa as _fa
+    tw_sess = Sess()
+    tw = _fa.FaTwin(tw_sess, _fa.FaCfg(salt="c06io", ip=True, b4=8, b6=8))
+    dotted = {}
+    for s, (e6, sig) in zip(lines, mids):
+        if "v6-dotted-tail" in sig:
+            dotted[s] = len(tw_sess.lines)
+            tw_sess.op("faline %s %s" % (tw.id, cps(s + "\n")), lambda: None)
+    tw_sess.finish(post=_fa.model_out) if dotted else None
     for s, (e6, sig), got in zip(lines, mids, outs):
         exp, _ = expected(4, e6, lambda f, a: imgs4[a], [])
         res.evaluations += 1
@@ -304,7 +316,7 @@ def io_scope(res, pid, rng, tier):
         if got != exp:
             case = {"kind": "anonymize_io output differs from the token-level reading (IPv6 pass, then IPv4 pass)",
                     "line": s, "output": got, "expected": exp}
-            if "v6-dotted-tail" in sig:
+            if "v6-dotted-tail" in sig and _fa.out_text(tw_sess.model[dotted[s]]) == got + "\n":
                 case["signature"] = "v6-dotted-tail"
             fails.append(case)
     return dis, fails
